@@ -154,8 +154,7 @@ def reset_index_(df: pd.DataFrame, *, names: Optional[SWCNames] = None) -> None:
     root_loc = roots.argmax()
     root_id = df.loc[root_loc, names.id]  # type:ignore
     df[names.id] = df[names.id] - root_id
-    df[names.pid] = df[names.pid] - root_id
-    df.loc[root_loc, names.pid] = -1  # type:ignore
+    df[names.pid] = df[names.pid].where(roots, df[names.pid] - root_id)
 
 
 def _copy_and_apply(fn: Callable, df: pd.DataFrame, *args, **kwargs):
